@@ -227,11 +227,15 @@ fn gadget(t: &mut Tape, b: &mut Builder) {
             let y = b.some_scalar(t, w);
             let e = small_expr(t, b, w);
             let (l, r) = if t.chance(1, 2) { (esc(&z.0, w), esc(&tt.0, w)) } else { (esc(&tt.0, w), esc(&z.0, w)) };
-            let src = match t.below(4) {
+            let src = match t.below(7) {
                 0 => il::Expression::Add(bx(l), bx(r)),
                 1 => il::Expression::Sub(bx(l), bx(r)),
                 2 => il::Expression::Xor(bx(l), bx(r)),
-                _ => il::Expression::Add(bx(esc(&tt.0, w)), bx(esc(&tt.0, w))), // the same scalar twice
+                3 => il::Expression::Add(bx(esc(&tt.0, w)), bx(esc(&tt.0, w))), // the same scalar twice
+                // T only as the shift amount / only as the shifted value
+                4 => il::Expression::AShr(bx(esc(&z.0, w)), bx(esc(&tt.0, w))),
+                5 => il::Expression::AShr(bx(esc(&tt.0, w)), bx(esc(&z.0, w))),
+                _ => il::Expression::Shl(bx(esc(&z.0, w)), bx(esc(&tt.0, w))),
             };
             let mut uses = vec![il::Operation::Assign { dst: sc(&y.0, w), src }];
             if y.0 != tt.0 {
